@@ -632,6 +632,7 @@ class Group:
         self.label = label
         self.line = sx(recipe)
         self.diffs = []          # (what, case line, impl, model)
+        self.reported = set()
         self.violated = False
 
     def replay(self, **kw):
@@ -641,9 +642,14 @@ class Group:
 
     def violation(self, what, **kw):
         self.violated = True
-        self.ctx.count('violations:' + what.split(':')[0])
+        cat = what.split(':')[0]
+        self.ctx.count('violations:' + cat)
         if self.classify(what, kw):
             return
+        # one input usually violates several clauses at once: report two of them, count the rest
+        if cat in self.reported or len(self.reported) >= 2:
+            return
+        self.reported.add(cat)
         self.ctx.violation('%s  [recipe %s]' % (what, self.line[:300]), self.replay(**kw))
 
     def classify(self, what, kw):
@@ -1382,7 +1388,7 @@ def run(ctx: core.Ctx):
     rng = ctx.fork('trees')
     depth = ctx.n(4, 6)
     trees = []
-    for _ in range(ctx.n(900, 16000)):
+    for _ in range(ctx.n(1500, 30000)):
         r = gen_top(rng, rng.randint(1, depth))
         trees.append((r, rng.getrandbits(32)))
         ctx.count('depth:%d' % depth_of(r))
